@@ -8,7 +8,7 @@
 (***************************************************************************)
 EXTENDS SegtreeImpl, TraceLib
 
-CONSTANTS AlgName, Sizes, Depth, Scalars
+CONSTANTS AlgName, Sizes, Depth, Scalars, UseJunk
 
 TheAlg ==
     CASE AlgName = "hashaff" -> A("hashaff")
@@ -49,25 +49,31 @@ View == <<alg, n, arr, data, Len(hist)>>
 RECURSIVE SeqsOver(_, _)
 SeqsOver(S, k) == IF k = 0 THEN {<<>>} ELSE {Append(s, c) : s \in SeqsOver(S, k - 1), c \in S}
 
-Op(name, a, b, m) == [op |-> name, a |-> a, b |-> b, m |-> m]
+Op(name, a, b, m) == [op |-> name, a |-> a, b |-> b, m |-> m, j |-> 0]
+OpJ(name, a, b, m, jk) == [op |-> name, a |-> a, b |-> b, m |-> m, j |-> jk]
+
+\* whether the items handed to the constructors / set carry a junk pending field (only meaningful with modifiers)
+Junk == IF ModKind(TheAlg) = "none" \/ ~UseJunk THEN {0} ELSE {0, 1}
 
 GInit ==
     /\ alg = TheAlg
-    /\ \/ \E k \in Sizes, c \in Scalars :
-              n = k /\ arr = ArrNew(TheAlg, k, c) /\ data = DataNew(TheAlg, k, c) /\ hist = <<Op("new", k, c, 0)>>
-       \/ \E k \in Sizes : \E cs \in SeqsOver(Scalars, k), how \in {"slice", "iter"} :
-              n = k /\ arr = ArrFromSeq(TheAlg, cs) /\ data = DataFromSeq(TheAlg, cs, how) /\ hist = <<Op(how, 0, 0, cs)>>
+    /\ \/ \E k \in Sizes, c \in Scalars, jk \in Junk :
+              n = k /\ arr = ArrNew(TheAlg, k, c) /\ data = DataNew(TheAlg, k, c, jk) /\ hist = <<OpJ("new", k, c, 0, jk)>>
+       \/ \E k \in Sizes : \E cs \in SeqsOver(Scalars, k), how \in {"slice", "iter"}, jk \in Junk :
+              n = k /\ arr = ArrFromSeq(TheAlg, cs) /\ data = DataFromSeq(TheAlg, cs, how, jk) /\ hist = <<OpJ(how, 0, 0, cs, jk)>>
 
 Go == Len(hist) <= Depth
 
-DoSet    == Go /\ \E i \in Idx, c \in Scalars : Set(i, c) /\ hist' = Append(hist, Op("set", i, c, 0))
+\* (a set with a junk-carrying item only writes a leaf: the junk value alternates with the position to keep the branching down)
+DoSet    == Go /\ \E i \in Idx, c \in Scalars : LET jk == IF 1 \in Junk THEN i % 2 ELSE 0 IN
+                  Set(i, c, jk) /\ hist' = Append(hist, OpJ("set", i, c, 0, jk))
 DoModify == Go /\ \E l \in Idx : \E r \in l .. n - 1 : \E m \in Mods : Modify(l, r, m) /\ hist' = Append(hist, Op("modify", l, r, m))
 DoAsk    == Go /\ \E l \in Idx : \E r \in l .. n - 1 : Ask(l, r) /\ hist' = Append(hist, Op("ask", l, r, 0))
 DoLb     == Go /\ \E l \in Idx : \E p \in Preds : MonotoneFrom(l, p) /\ Lb(l, p) /\ hist' = Append(hist, Op("lb", l, 0, p))
 DoLbRev  == Go /\ \E r \in Idx : \E p \in Preds : MonotoneTo(r, p) /\ LbRev(r, p) /\ hist' = Append(hist, Op("lbrev", r, 0, p))
 \* re-construction in the middle of a history (a smaller tree, so that the bounded search stays cheap)
 DoRenew  == Go /\ \E c \in Scalars : LET k == IF n > 1 THEN n - 1 ELSE 2
-                                     IN New(TheAlg, k, c) /\ hist' = Append(hist, Op("new", k, c, 0))
+                                     IN \E jk \in Junk : New(TheAlg, k, c, jk) /\ hist' = Append(hist, OpJ("new", k, c, 0, jk))
 
 GNext == DoSet \/ DoModify \/ DoAsk \/ DoLb \/ DoLbRev \/ DoRenew
 
